@@ -184,9 +184,10 @@ def run(tier, v):
         "bad-chunk bodies, malformed status line / header / 12 MB header, close before / during, refused, timeout, non-JSON, "
         "non-HTML, short / absent header; unsolicited 100 Continue, more 1xx than the client accepts, 101 Switching Protocols, chunk sizes "
         "that overflow / are negative / lack CRLF / end early, gzip Content-Encoding on garbage (with and without a decompressing client), "
-        "a 1.2 MB header block in 20 000 lines, one-byte writes; $.list empty / one element / string / null / object flowing into a later "
+        "a 1.2 MB header block in 20 000 lines, one-byte writes; announced Content-Length 2^62 / 2^63-1 (a few bytes, close) and 2^63 / 10^20; $.list empty / one element / string / null / object flowing into a later "
         "step's preprocessor under every index form; connect tunnel refused / 407 / garbage / extra bytes; gRPC: codes 0..16 and 17, 42, "
-        "2^31-1, 1 MB / 6 MB replies, deadline, killed connection (before / after the headers), empty and undecodable reply messages",
+        "2^31-1, 1 MB / 6 MB replies, deadline, killed connection (before / after the headers), empty and undecodable reply messages, OK replies whose type is a protobuf "
+        "well-known type (Empty, Timestamp, Duration, wrappers, Struct, ListValue, Any)",
         "each ammo names its letter; letters with effects beyond their own request (timeout, refused, killed gRPC connection, "
         "slow gRPC) only in single-letter runs; gRPC status coding only checked as 200 / >= 400 (C10, C20 own the table)",
         "http2 guns: well-formed h2 responses, handshake-level letters (alert / close / reset on every other handshake, "
@@ -218,5 +219,7 @@ MANIFEST = dict(
          "provoked on the real engine, so a panic or a lost/extra sample in any path shows as a rejected run.",
     note="2 instances x 30 ammo per run; byte-level fuzz of responses is not attempted (letters are representatives); "
          "gRPC status table not re-derived; the instance loop is explored over one representative letter per outcome class; "
-         "a peer that stalls in the middle of a body is outside the alphabet (no body timeout option: the instance would block, not crash)",
+         "a peer that stalls in the middle of a body is outside the alphabet (no body timeout option: the instance would block, not crash); "
+         "announced body lengths are either true, slightly short or absurd (>= 2^62) - lengths that a careless client would really try to "
+         "allocate (2^31 .. 2^40) are not provoked",
 )
